@@ -1013,10 +1013,12 @@ class Server:
                         if cmd not in ("retr", "stor", "appe"):
                             connection.restart_offset = 0
                         f = self.commands_mapping.get(cmd)
-                        if f is not None:
-                            coro = f(connection, rest)
-                        else:
+                        if f is None:
                             coro = self._not_implemented(connection, cmd)
+                        elif cmd in ("retr", "stor", "appe"):
+                            coro = self._transfer_command(f, connection, rest)
+                        else:
+                            coro = f(connection, rest)
                         # commands of one session are handled and answered
                         # in order they arrived: handler starts when
                         # handlers of previous commands returned
@@ -1058,6 +1060,15 @@ class Server:
     async def _not_implemented(connection, cmd):
         connection.response("502", f"{cmd!r} not implemented")
         return True
+
+    @staticmethod
+    async def _transfer_command(f, connection, rest):
+        try:
+            return await f(connection, rest)
+        finally:
+            # restart offset is for one transfer command only, also when
+            # this command is refused before its handler looks at offset
+            connection.restart_offset = 0
 
     @staticmethod
     async def _run_after(tasks, connection, coro):
